@@ -550,6 +550,11 @@ Step(m, ev) ==
          IF i > 0 /\ m.pubs[i].props # "?" /\ m.ver = 5
             /\ (ev.x # m.pubs[i].props \/ ev.q # m.pubs[i].mei \/ ev.r # m.pubs[i].pfi)
            THEN Fail(m, "C03:handler-saw-wrong-properties") ELSE m
+    \* C18 at connection level: the generator knows (from Topic.tla) whether every filter of the next SUBSCRIBE /
+    \* UNSUBSCRIBE is valid
+    [] ev.e = "expect_filters" ->
+         IF ev.k = "bad" THEN NeedProto(m, "C18:subscription-with-an-invalid-topic-filter-must-end-the-connection")
+         ELSE [m EXCEPT !.strict = 18]
     [] ev.e = "final" -> OnFinal(m, ev)
     [] ev.e = "quiet" /\ ev.k = "alive" /\ m.est /\ m.hfail /\ m.expectStop = "stop_error" /\ m.stops = 0 /\ ~m.noCtl /\ ~m.term ->
          \* a handler has failed, everything runnable has run, and the connection control service has not been told:
